@@ -59,6 +59,12 @@ func New(inspect *inspector.Inspector, pkg *types.Package, info *types.Info) *In
 				if !typesinternal.IsPackageLevel(obj) {
 					addPackage(obj.Pkg())
 				}
+				// ... and via aliases of types of other packages.
+				if tname, ok := obj.(*types.TypeName); ok && tname.IsAlias() {
+					if named, ok := types.Unalias(tname.Type()).(interface{ Obj() *types.TypeName }); ok {
+						addPackage(named.Obj().Pkg())
+					}
+				}
 
 				for {
 					us, ok := ix.uses[obj]
